@@ -9,28 +9,41 @@ import vlib  # noqa: E402
 
 
 def generate_all(ctx, jobs, spec):
-    """Run the TLC jobs (cfg, mode, num) concurrently (the JVM start-up dominates on a busy
-    machine); returns {cfg: TlcResult}. Raises Inconclusive on a TLC error or empty output."""
+    """Run the TLC jobs concurrently (the JVM start-up dominates on a busy machine). A job is
+    (cfg, mode, num) with mode bfs | simulate (behaviour generation from `spec`), or
+    (cfg, "mc", module) / (cfg, "mc_expect", module): a design-level model-checking run of
+    `module` that must find no counterexample / must find one. Returns {cfg: TlcResult}.
+    Raises Inconclusive on a TLC error, an empty output or an unexpected (M) outcome."""
     out, errors, lock = {}, [], threading.Lock()
 
-    def one(cfg, mode, num):
+    def one(cfg, mode, arg):
+        mc = mode in ("mc", "mc_expect")
+        mod = arg if mc else spec
         try:
-            r = vlib.tlc(spec, cfg, ctx.scratch, mode=mode, num=num, depth=40, seed=ctx.seed, timeout=900,
-                         out=os.path.join(ctx.scratch, cfg + ".ndjson"), workers=(1 if mode == "simulate" else 2))
+            if mc:
+                r = vlib.tlc(mod, cfg, ctx.scratch, mode="bfs", seed=ctx.seed, timeout=1500, out=None, workers=2)
+            else:
+                r = vlib.tlc(mod, cfg, ctx.scratch, mode=mode, num=arg, depth=40, seed=ctx.seed, timeout=900,
+                             out=os.path.join(ctx.scratch, cfg + ".ndjson"), workers=(1 if mode == "simulate" else 2))
         except vlib.Inconclusive as e:
             with lock:
                 errors.append(str(e))
             return
         with lock:
-            ctx.tlc_runs.append((spec, cfg, r))
-            if r.violation:
-                errors.append("TLC reported an error in %s/%s:\n%s" % (spec, cfg, r.violation[:3000]))
-            elif r.n_behaviours == 0:
-                errors.append("TLC produced no behaviours for %s/%s\n%s" % (spec, cfg, r.out_tail))
+            ctx.tlc_runs.append((mod, cfg, r))
+            if mode == "mc_expect":
+                if not r.violation:
+                    errors.append("%s/%s: the design model no longer reproduces the defect it was written to show" % (mod, cfg))
+                out[cfg] = r
+            elif r.violation:
+                errors.append("TLC reported an error in %s/%s:\n%s" % (mod, cfg, r.violation[:3000]))
+            elif not mc and r.n_behaviours == 0:
+                errors.append("TLC produced no behaviours for %s/%s\n%s" % (mod, cfg, r.out_tail))
             else:
                 out[cfg] = r
-        vlib.log("TLC %s/%s %s: %d behaviours, %d generated / %d distinct states, %.1fs"
-                 % (spec, cfg, mode, r.n_behaviours, r.generated, r.distinct, r.wall_s))
+        vlib.log("TLC %s/%s %s: %d behaviours, %d generated / %d distinct states, %.1fs%s"
+                 % (mod, cfg, mode, r.n_behaviours, r.generated, r.distinct, r.wall_s,
+                    " (counterexample, as expected)" if mode == "mc_expect" and r.violation else ""))
 
     threads = [threading.Thread(target=one, args=j) for j in jobs]
     for i in range(0, len(threads), 4):
